@@ -8,11 +8,13 @@ import (
 	"encoding/binary"
 	"fmt"
 	"net"
+	"strings"
 	"time"
 
 	"github.com/insomniacslk/dhcp/dhcpv6"
 	"github.com/insomniacslk/dhcp/dhcpv6/nclient6"
 	"github.com/insomniacslk/dhcp/dhcpv6/server6"
+	"github.com/insomniacslk/dhcp/iana"
 	simrt "github.com/insomniacslk/dhcp/zzsimrt"
 )
 
@@ -58,6 +60,7 @@ func (m msg6) first(code uint16) []byte {
 }
 
 type ex6Rx struct {
+	corrupt bool
 	trig    int // type of the client message the server was answering (0: unknown)
 	seq     int
 	doneSeq int
@@ -185,7 +188,9 @@ func (st *ex6State) start() {
 		st.net = NewNet(s)
 		st.cconn = NewConn(s, "cconn", &net.UDPAddr{IP: net.ParseIP("fe80::1"), Port: 546})
 		st.cconn.OnWrite = func(b []byte, to net.Addr) { st.clientTx(b) }
-		st.cconn.OnRead = func(d dgram, n int) { st.clientRx(append([]byte(nil), d.b[:n]...), d.serial) }
+		st.cconn.OnRead = func(d dgram, n int) {
+			st.clientRx(append([]byte(nil), d.b[:n]...), d.serial, strings.HasSuffix(d.tag, "+corrupt"))
+		}
 		st.cconn.OnReadEnter = func() {
 			if n := len(st.rx); n > 0 && st.rx[n-1].doneSeq == 0 {
 				st.rx[n-1].doneSeq = s.Seq()
@@ -291,15 +296,15 @@ func (st *ex6State) faultCopies() int {
 	return 1
 }
 
-func (st *ex6State) maybeCorrupt(b []byte) []byte {
+func (st *ex6State) maybeCorrupt(b []byte) ([]byte, bool) {
 	t := st.tape
 	if st.corruptNum > 0 && len(b) > 0 && t.Coin(st.corruptNum, 100) {
 		c := append([]byte(nil), b...)
 		c[t.Choose(len(c))] ^= 1 << uint(t.Choose(8))
 		st.s.Fault("corrupt")
-		return c
+		return c, true
 	}
-	return b
+	return b, false
 }
 
 func (st *ex6State) clientTx(b []byte) {
@@ -315,7 +320,7 @@ func (st *ex6State) clientTx(b []byte) {
 	for _, sv := range st.servers {
 		sv := sv
 		for c := st.faultCopies(); c > 0; c-- {
-			pb := st.maybeCorrupt(b)
+			pb, _ := st.maybeCorrupt(b)
 			d := pick(t, 0, 0, ms(1), ms(2), st.T/4)
 			st.net.After(d, func() {
 				s.Stimulus()
@@ -330,18 +335,22 @@ func (st *ex6State) toClient(sv *ex6Server, b []byte) {
 	trig := st.trig[s.CurTask()]
 	s.Ev("server.tx", sv.id, int64(len(b)), "", nil)
 	for c := st.faultCopies(); c > 0; c-- {
-		pb := st.maybeCorrupt(b)
+		pb, corrupted := st.maybeCorrupt(b)
 		d := pick(t, 0, 0, ms(1), ms(3), st.T/2, st.T-ms(1), st.T, st.T+ms(1), 2*st.T)
+		tag := fmt.Sprintf("s%d", sv.id)
+		if corrupted {
+			tag += "+corrupt"
+		}
 		st.net.After(d, func() {
 			s.Stimulus()
-			st.cconn.Deliver(dgram{b: pb, from: sv.conn.Local, tag: fmt.Sprintf("s%d", sv.id), serial: trig})
+			st.cconn.Deliver(dgram{b: pb, from: sv.conn.Local, tag: tag, serial: trig})
 		})
 	}
 }
 
-func (st *ex6State) clientRx(b []byte, trig int) {
+func (st *ex6State) clientRx(b []byte, trig int, corrupted bool) {
 	s := st.s
-	r := &ex6Rx{t: s.Now(), bytes: b, trig: trig}
+	r := &ex6Rx{t: s.Now(), bytes: b, trig: trig, corrupt: corrupted}
 	if m, err := dhcpv6.MessageFromBytes(append([]byte(nil), b...)); err == nil {
 		r.m = m
 		r.canon = m.ToBytes()
@@ -374,8 +383,22 @@ func (st *ex6State) handler(sv *ex6Server) server6.Handler {
 		n := t.Weighted(1, 5, 2, 1)
 		for i := 0; i < n; i++ {
 			var rep *dhcpv6.Message
+			inf := time.Duration(0xffffffff) * time.Second // "infinity" on the wire
 			ia := &dhcpv6.OptIANA{IaId: [4]byte{0xaa, 0xbb, 0x00, 0x01}, T1: time.Hour, T2: 2 * time.Hour}
-			ia.Options.Add(&dhcpv6.OptIAAddress{IPv6Addr: net.ParseIP(fmt.Sprintf("2001:db8:%d::%d", sv.id, 1+t.Choose(9))), PreferredLifetime: time.Hour, ValidLifetime: 2 * time.Hour})
+			addr := &dhcpv6.OptIAAddress{IPv6Addr: net.ParseIP(fmt.Sprintf("2001:db8:%d::%d", sv.id, 1+t.Choose(9))), PreferredLifetime: time.Hour, ValidLifetime: 2 * time.Hour}
+			switch t.Weighted(6, 1, 1) {
+			case 1:
+				ia.T1, ia.T2 = inf, inf
+				s.Fault("reply-infinite-lifetime")
+			case 2:
+				addr.PreferredLifetime, addr.ValidLifetime = inf, inf
+				s.Fault("reply-infinite-lifetime")
+			}
+			ia.Options.Add(addr)
+			if t.Coin(1, 8) {
+				ia.Options.Add(&dhcpv6.OptStatusCode{StatusCode: iana.StatusNoAddrsAvail, StatusMessage: "none left"})
+				s.Fault("reply-status-in-ia")
+			}
 			typ := dhcpv6.MessageTypeAdvertise
 			if m.MessageType == dhcpv6.MessageTypeRequest {
 				typ = dhcpv6.MessageTypeReply
@@ -411,6 +434,10 @@ func (st *ex6State) handler(sv *ex6Server) server6.Handler {
 			if t.Coin(1, 3) {
 				pd := &dhcpv6.OptIAPD{IaId: [4]byte{0xcc, 0, 0, byte(1 + t.Choose(2))}, T1: time.Hour, T2: 2 * time.Hour}
 				rep.AddOption(pd)
+			}
+			if t.Coin(1, 8) {
+				rep.AddOption(&dhcpv6.OptStatusCode{StatusCode: iana.StatusCode(1 + t.Choose(5)), StatusMessage: "status"})
+				s.Fault("reply-status-top-level")
 			}
 			if typ == dhcpv6.MessageTypeReply && m.MessageType == dhcpv6.MessageTypeSolicit {
 				rep.AddOption(&dhcpv6.OptionGeneric{OptionCode: dhcpv6.OptionRapidCommit})
@@ -495,10 +522,37 @@ func (st *ex6State) checkPairing(v *vio, o *ex6Op, name string, got *dhcpv6.Mess
 func (st *ex6State) requestTxProblems(name string, adv *dhcpv6.Message, txs []*ex6Tx) (out []string) {
 	add := func(rule, format string, a ...interface{}) { out = append(out, rule+"|"+fmt.Sprintf(format, a...)) }
 	// what the ADVERTISE carried, as option payload bytes
-	cid := adv.GetOneOption(dhcpv6.OptionClientID)
-	sid := adv.GetOneOption(dhcpv6.OptionServerID)
-	iana := adv.Options.OneIANA()
-	iapd := adv.GetOneOption(dhcpv6.OptionIAPD)
+	cidO := adv.GetOneOption(dhcpv6.OptionClientID)
+	sidO := adv.GetOneOption(dhcpv6.OptionServerID)
+	ianaO := adv.Options.OneIANA()
+	iapdO := adv.GetOneOption(dhcpv6.OptionIAPD)
+	var cid, sid, iaNA, iapd []byte // what the ADVERTISE carried, as option payload bytes (nil: absent)
+	if cidO != nil {
+		cid = cidO.ToBytes()
+	}
+	if sidO != nil {
+		sid = sidO.ToBytes()
+	}
+	if ianaO != nil {
+		iaNA = ianaO.ToBytes()
+	}
+	if iapdO != nil {
+		iapd = iapdO.ToBytes()
+	}
+	// Prefer the bytes as they were on the wire, read with the independent TLV reader: the
+	// library's own re-encoding of what it decoded cannot reveal a lossy decode/encode pair.
+	// (Not for datagrams the network corrupted: those need not be canonical.)
+	if src := st.findSource(adv, 0, 1<<30); src != nil && !src.corrupt {
+		if raw, ok := parseMsg6(src.bytes); ok {
+			pickRaw := func(cur []byte, code uint16) []byte {
+				if cur != nil && raw.first(code) != nil {
+					return raw.first(code)
+				}
+				return cur
+			}
+			cid, sid, iaNA, iapd = pickRaw(cid, 1), pickRaw(sid, 2), pickRaw(iaNA, 3), pickRaw(iapd, 25)
+		}
+	}
 	for i, tx := range txs {
 		if !tx.ok {
 			add("Y-req-malformed", "%s: REQUEST %d is not a well-formed DHCPv6 message", name, i+1)
@@ -514,16 +568,16 @@ func (st *ex6State) requestTxProblems(name string, adv *dhcpv6.Message, txs []*e
 		if p.xid != txs[0].p.xid {
 			add("Y-req-xid-changed", "%s: REQUEST %d has another transaction id than REQUEST 1", name, i+1)
 		}
-		if cid != nil && !bytes.Equal(p.first(1), cid.ToBytes()) {
+		if cid != nil && !bytes.Equal(p.first(1), cid) {
 			add("Y-req-clientid", "%s: REQUEST %d does not carry the advertised client id", name, i+1)
 		}
-		if sid != nil && !bytes.Equal(p.first(2), sid.ToBytes()) {
+		if sid != nil && !bytes.Equal(p.first(2), sid) {
 			add("Y-req-serverid", "%s: REQUEST %d does not carry the advertised server id", name, i+1)
 		}
-		if iana != nil && !bytes.Equal(p.first(3), iana.ToBytes()) {
+		if iaNA != nil && !bytes.Equal(p.first(3), iaNA) {
 			add("Y-req-iana", "%s: REQUEST %d does not carry the advertised (first) IA_NA", name, i+1)
 		}
-		if iapd != nil && !bytes.Equal(p.first(25), iapd.ToBytes()) {
+		if iapd != nil && !bytes.Equal(p.first(25), iapd) {
 			add("Y-req-iapd", "%s: REQUEST %d does not carry the advertised IA_PD", name, i+1)
 		}
 	}
